@@ -18,9 +18,12 @@ import (
 	"context"
 	"fmt"
 	"math/rand"
+	"sync"
 	"time"
 
 	metav1 "k8s.io/apimachinery/pkg/apis/meta/v1"
+	"k8s.io/apimachinery/pkg/watch"
+	clienttesting "k8s.io/client-go/testing"
 	"k8s.io/client-go/tools/cache"
 
 	proxyv1alpha1 "github.com/kubewharf/kubegateway/pkg/apis/proxy/v1alpha1"
@@ -38,6 +41,11 @@ type QueueCase struct {
 	Kind    string `json:"kind"`    // delete-cluster | drop-endpoint
 	Watch   bool   `json:"watch"`
 }
+
+var (
+	queueMu    sync.Mutex
+	queueTimes []map[string]interface{} // exhibited: how long the removal took from the event, real path vs reference
+)
 
 const (
 	queueFloor = 5 * time.Second  // never a failure below this
@@ -58,6 +66,15 @@ func ucObj(name string, ver int, servers []string, token string) *proxyv1alpha1.
 // runQueueCase returns (failures, inconclusive reason).
 func runQueueCase(qc QueueCase) ([]rig.Failure, string) {
 	client := fake.NewSimpleClientset()
+	// the fake tracker does not replay: an object written between the informer's List and the registration of its Watch
+	// would never be delivered. Register the watch ourselves and tell when that has happened.
+	watching := make(chan struct{})
+	var once sync.Once
+	client.PrependWatchReactor("*", func(action clienttesting.Action) (bool, watch.Interface, error) {
+		wi, err := client.Tracker().Watch(action.GetResource(), action.GetNamespace())
+		once.Do(func() { close(watching) })
+		return true, wi, err
+	})
 	factory := informers.NewSharedInformerFactory(client, 0)
 	ctl := controllers.NewUpstreamClusterController(factory.Proxy().V1alpha1().UpstreamClusters(), &proxyoptions.RateLimiterOptions{})
 	stop := make(chan struct{})
@@ -66,6 +83,11 @@ func runQueueCase(qc QueueCase) ([]rig.Failure, string) {
 	defer close(stop)
 	factory.Start(stop)
 	go ctl.Run(stop)
+	select {
+	case <-watching:
+	case <-time.After(30 * time.Second):
+		return nil, "watch-not-established"
+	}
 
 	// the reference: the same handler, stepped in order by one goroutine
 	refIdx := cache.NewIndexer(cache.MetaNamespaceKeyFunc, cache.Indexers{})
@@ -145,7 +167,7 @@ func runQueueCase(qc QueueCase) ([]rig.Failure, string) {
 		create(ucObj(n, ver, nil, "tok-"+n))
 	}
 	all := append([]string{victim, bystander}, names...)
-	if !waitFor(8*time.Second, func() bool {
+	if !waitFor(60*time.Second, func() bool {
 		for _, n := range all {
 			if _, ok := ctl.Get(n); !ok {
 				return false
@@ -238,6 +260,9 @@ func runQueueCase(qc QueueCase) ([]rig.Failure, string) {
 	if limit < queueFloor {
 		limit = queueFloor
 	}
+	queueMu.Lock()
+	queueTimes = append(queueTimes, map[string]interface{}{"kind": qc.Kind, "events": events, "real_ms": float64(tReal.Microseconds()) / 1000, "reference_ms": float64(tRef.Microseconds()) / 1000, "effective": okReal})
+	queueMu.Unlock()
 	if okReal || tReal <= limit {
 		if okReal && tReal <= limit {
 			return nil, ""
